@@ -67,6 +67,29 @@ func checkC06(c caseC06) string {
 	return ""
 }
 
+// safeToExecute tells whether executing the input stays within the
+// property's memory bound: without '*' nothing can grow; with it, the
+// harness's own tokenizer, recogniser and evaluator must vouch for it.
+func safeToExecute(src []byte) bool {
+	if !strings.Contains(string(src), "*") {
+		return true
+	}
+	tp, lerr := gen.Tokenize(string(src))
+	if lerr != nil {
+		return true // a lexical failure: nothing is executed
+	}
+	toks := make([]gen.Tok, len(tp))
+	for i, x := range tp {
+		toks[i] = x.Tok
+	}
+	p, v := ref.ParseTokens(toks)
+	if !v.Accept {
+		return v.Unspecified == "" // rejected: nothing is executed
+	}
+	o := ref.Run(p)
+	return !strings.Contains(o.Unspecified, "repetition")
+}
+
 var soupAlphabet = []string{" ", "\n", "\t", "a", "b", "x1", "_", "0", "1", "9", "0x", "1e", ".", "e", "E", "+", "-", "*", "/", "=", "==", "!", "!=", "<", ">", "<=", ">=",
 	"(", ")", "{", "}", ":", ";", "->", "\"", "\\", "\\\"", "#", "'", "@", "$", "é", "\xff", "\xc3", "\u0085", "\u00a0", "var", "def", "eval", "print", "bind", "true", "false", "nil", "not", "and", "or",
 	"struct", "slice", "first", "all", "\x00", "\r", "08", "9223372036854775808", "1e999", "\"\\q\"", "\"\\400\""}
@@ -278,11 +301,11 @@ func TestC06(t *testing.T) {
 		case 0:
 			c.Family = "bytes"
 			c.Req.Src = genBytes(t)
-			c.Req.Exec = !strings.Contains(string(c.Req.Src), "*")
+			c.Req.Exec = safeToExecute(c.Req.Src)
 		case 1:
 			c.Family = "token-soup"
 			c.Req.Src = genSoup(t)
-			c.Req.Exec = !strings.Contains(string(c.Req.Src), "*")
+			c.Req.Exec = safeToExecute(c.Req.Src)
 		case 2:
 			c.Family = "damaged-program"
 			c.Req.Src, c.Req.Exec, c.Note = genDamaged(t)
